@@ -675,7 +675,16 @@ impl World {
         let info = self.apply(inp).await;
         // barrier: on a paused clock this returns when every task is idle
         tokio::time::sleep(Duration::from_millis(1)).await;
-        let out = self.observe_out();
+        let mut out = self.observe_out();
+        // the channel to the application holds 50 events: a handler that was blocked on it goes on once it has been drained
+        for _ in 0..8 {
+            tokio::time::sleep(Duration::from_millis(1)).await;
+            let more = self.observe_out();
+            if more.is_empty() {
+                break;
+            }
+            out.extend(more);
+        }
         let net = self.observe_wire();
         let mut exp = Map::new();
         for (a, n) in self.h.expected.read().iter() {
